@@ -313,7 +313,6 @@ package kafka
 //@   ensures batch.$completed && !ptw.$inflight
 // C01: a batch is completed WITHOUT an error only after a produce request for it was acknowledged without an error:
 // $acked is set by (and only by) the outcome of the last w.produce call - at least one attempt is always made.
-//@   ghostdef batch.$acked == false
 //@   callsite (*Writer).produce modifies batch.$acked
 //@   callsite (*Writer).produce ensures batch.$acked == ((result0 != nil && isnil(result0.Error)) || (result0 == nil && isnil(result1)))
 //@   callsite (*writeBatch).complete requires $0 == batch && (isnil($1) ==> batch.$acked)
@@ -418,9 +417,18 @@ package kafka
 
 //@ property C08 C07 C01 C10 C09
 // C09: a caller blocked in WriteMessages waiting for its batches returns when its context ends
+// C09: a nil result means the Writer accepted the call while it was open - enter() was called and returned true - so a
+// call on a closed Writer never reports success, whatever it carries (also no messages at all). $entered is ghost state of
+// one call: false when the call begins (precondition), set by the outcome of enter(). Stated for the call without messages
+// only: on the other paths the ghost flag is lost at the calls that may modify the whole heap (batchMessages), where the
+// same fact is carried by batchMessages' own result (ok == false => io.ErrClosedPipe).
 //@ func (*Writer).WriteMessages
 //@   option noframe
 //@   modifies heap
+//@   requires !w.$entered
+//@   callsite (*Writer).enter modifies w.$entered
+//@   callsite (*Writer).enter ensures w.$entered == result
+//@   ensures isnil(result) && len(msgs) == 0 ==> w.$entered
 //@   cancellable ctx.Done()
 //@   unproved index@"werr[i] = batch.err" the index lists returned by batchMessages hold positions of msgs; that map-content invariant is not carried through the result map
 //@   loop 0 invariant -1 <= rangeindex && batchBytes == w.batchBytes()
